@@ -16,10 +16,14 @@ def cases(tier, rng):
     k = 0
     for n in range(1, 7):
         for seq in itertools.product("sr", repeat=n):
-            for peer in ("answers", "silent", "closed"):
+            for peer in ("answers", "silent", "closed", "junk"):
                 ops = ["attach a REP"]
                 if peer == "answers":
                     ops.append("feed a " + W.tok(b"".join(W.msg([b"", b"reply%d" % i]) for i in range(7))))
+                elif peer == "junk":
+                    # replies that are not replies: no delimiter, a single frame, only a delimiter - one per request
+                    junk = [[b"junk", b"not-a-reply"], [b"solo"], [b""], [b"x" * 300, b""], [b"j", b"", b"k"], [b"z"], [b"a", b"b", b"c"]]
+                    ops.append("feed a " + W.tok(b"".join(W.msg(m) for m in junk)))
                 elif peer == "closed":
                     ops.append("eof a")
                 j = 0
@@ -205,6 +209,10 @@ def judge(line, obs, orc):
                         return "REQ recv returned %s, expected %s" % (tk, want)
                     nrep += 1
                     owing = False
+                elif peer == "junk":
+                    if not tk.startswith("r=err"):
+                        return "REQ recv returned %s for a malformed reply" % tk
+                    owing = False       # the reply (such as it was) has been consumed and reported: the exchange is over
                 elif peer == "silent":
                     if tk != "r=pending":
                         return "REQ recv with a silent peer: %s" % tk
